@@ -278,8 +278,28 @@ def module_consts(module, model=None, _depth=0):
                     for kk, vv in module_consts(tm, model, _depth + 1).items():
                         if not kk.startswith('len:'):
                             out['%s.%s' % (alias, kk)] = vv
+    pool = [(name, node) for name, node in module.constants.items() if module.assign_counts.get(name, 0) == 1]
+    cls_pool = list(module.class_constants().items()) if hasattr(module, 'class_constants') else []
     for _ in range(3):
-        for name, node in module.constants.items():
+        # constants of a namespace class: known as Cls.NAME everywhere and as NAME inside the class body itself
+        for qn, node in cls_pool:
+            cname, nm = qn.split('.', 1)
+            local = dict(out)
+            for q2, v2 in list(out.items()):
+                if q2.startswith(cname + '.') and not q2.startswith('len:'):
+                    local.setdefault(q2.split('.', 1)[1], v2)
+            for q2, v2 in list(out.items()):
+                if q2.startswith('len:' + cname + '.'):
+                    local.setdefault('len:' + q2[len('len:' + cname + '.'):], v2)
+            if isinstance(node, ast.Constant) and isinstance(node.value, str):
+                out['len:' + qn] = Fraction(len(node.value))
+                continue
+            v = const_number(node, local)
+            if v is not None:
+                out[qn] = v
+                out['cls.' + nm] = v
+                out['self.' + nm] = v
+        for name, node in pool:
             if module.assign_counts.get(name, 0) != 1:
                 continue
             if isinstance(node, ast.Constant) and isinstance(node.value, str):
